@@ -489,6 +489,7 @@ def pdf_sym_check(ctx, c, outs):
     gv = Gp[idx] * v
     kw = dict(resolution=c["res"], sigma=c["sigma"], weights=w, symmetry=Gp, mrd=c["mrd"])
     h1, _ = pdf(v, **kw)
+    vs = np.array(c["vs"], float).reshape(-1, 3)       # fresh copy: `v` may share memory with the array it was built from
     if not np.array_equal(v.data.reshape(-1, 3), vs):
         j = int(np.argmax(np.abs(v.data.reshape(-1, 3) - vs).max(axis=1)))
         return (f"pole_density_function(v, symmetry={c['group']}) changed its input vectors: {vs[j].tolist()} -> "
